@@ -1,0 +1,100 @@
+// Copyright © 2022-2026 Obol Labs Inc. Licensed under the terms of a Business Source License 1.1
+
+//go:build verif
+
+package parsigdb
+
+import "github.com/obolnetwork/charon/core"
+
+// This file is only compiled with the "verif" build tag. It gives the verification harness a
+// consistent view of MemDB's unexported maps (and lets it put a previously taken view back, so a
+// recorded operation can be replayed under another Go map iteration order). It adds no behaviour
+// to any existing function.
+
+// VerifKey mirrors the unexported key type.
+type VerifKey struct {
+	Duty       core.Duty
+	PubKey     core.PubKey
+	SubcommIdx core.SubcommitteeIndex
+}
+
+// VerifExemptKey mirrors the unexported exemptEntryKey type.
+type VerifExemptKey struct {
+	ShareIdx int
+	PubKey   core.PubKey
+	DutyType core.DutyType
+}
+
+// VerifSnapshot is a copy of the three internal maps of MemDB (slices are copied, the stored
+// ParSignedData values are shared: they are never mutated in place).
+type VerifSnapshot struct {
+	Entries    map[VerifKey][]core.ParSignedData
+	KeysByDuty map[core.Duty][]VerifKey
+	Exempt     map[VerifExemptKey][]VerifKey
+}
+
+func verifKeys(ks []key) []VerifKey {
+	out := make([]VerifKey, 0, len(ks))
+	for _, k := range ks {
+		out = append(out, VerifKey(k))
+	}
+
+	return out
+}
+
+func unverifKeys(ks []VerifKey) []key {
+	out := make([]key, 0, len(ks))
+	for _, k := range ks {
+		out = append(out, key(k))
+	}
+
+	return out
+}
+
+// VerifSnapshot returns a copy of the internal maps, taken under db.mu.
+func (db *MemDB) VerifSnapshot() VerifSnapshot {
+	db.mu.Lock()
+	defer db.mu.Unlock()
+
+	s := VerifSnapshot{
+		Entries:    make(map[VerifKey][]core.ParSignedData, len(db.entries)),
+		KeysByDuty: make(map[core.Duty][]VerifKey, len(db.keysByDuty)),
+		Exempt:     make(map[VerifExemptKey][]VerifKey, len(db.exemptEntries)),
+	}
+
+	for k, v := range db.entries {
+		s.Entries[VerifKey(k)] = append([]core.ParSignedData(nil), v...)
+	}
+
+	for d, ks := range db.keysByDuty {
+		s.KeysByDuty[d] = verifKeys(ks)
+	}
+
+	for ek, ks := range db.exemptEntries {
+		s.Exempt[VerifExemptKey(ek)] = verifKeys(ks)
+	}
+
+	return s
+}
+
+// VerifRestore replaces the internal maps by copies of the ones in s, under db.mu.
+func (db *MemDB) VerifRestore(s VerifSnapshot) {
+	db.mu.Lock()
+	defer db.mu.Unlock()
+
+	db.entries = make(map[key][]core.ParSignedData, len(s.Entries))
+	db.keysByDuty = make(map[core.Duty][]key, len(s.KeysByDuty))
+	db.exemptEntries = make(map[exemptEntryKey][]key, len(s.Exempt))
+
+	for k, v := range s.Entries {
+		db.entries[key(k)] = append([]core.ParSignedData(nil), v...)
+	}
+
+	for d, ks := range s.KeysByDuty {
+		db.keysByDuty[d] = unverifKeys(ks)
+	}
+
+	for ek, ks := range s.Exempt {
+		db.exemptEntries[exemptEntryKey(ek)] = unverifKeys(ks)
+	}
+}
